@@ -1,7 +1,7 @@
 //! C01 — cost-base ledger follows the average-cost rules exactly (reference-model oracle).
 use super::common::*;
 use super::PropDef;
-use crate::cmp::{compare, model_for, normalize_all, CmpWhat};
+use crate::cmp::{model_for, normalize_all, CmpWhat};
 use crate::engine::{Obs, Sub, Tier, Verdict};
 use crate::gen::GenParams;
 use crate::model::Act;
@@ -57,9 +57,8 @@ fn check(case: &LedgerCase, obs: &mut Obs) -> Verdict {
         if tool.err.is_some() { obs.class("tool-rejects(skip-sec)"); continue; } // C01 quantifies over accepted histories; acceptance is C04
         if model.err.is_some() { obs.class("model-rejects-tool-accepts(skip-sec)"); continue; }
         let n = normalize_all(&tool.deltas);
-        match compare(&model.rows, &n, false, &CmpWhat::all()) {
-            Ok(_) => {}
-            Err(e) => return Verdict::Fail(format!("{sec}: {e}\nopening={:?}\n{}", case.opening, files[0].1)),
+        if let Err((e, at)) = crate::cmp::compare_at(&model.rows, &n, false, &CmpWhat::all()) {
+            return ledger_mismatch_verdict(&sec, &e, at, &case.sec_rows(&sec), &model, &format!("opening={:?}\n{}{}", case.opening, files[0].1, if std::env::var("ACBVERIF_DUMP").is_ok() { crate::cmp::dump(&model.rows, &n) } else { String::new() }));
         }
         classify(case, &sec, &model, obs);
         any = true;
